@@ -50,8 +50,8 @@ func suiteNode(c *Ctx) {
 			}
 			ws[r.Intn(n)] = uint64(3 + r.Intn(6))
 		}
-		opts := NetOpts{N: n, Weights: ws, Inst: uint64(100 + r.Intn(3))}
-		net := NewNet(c, opts, fmt.Sprintf("honest n=%d weights=%v", n, ws))
+		opts := NetOpts{N: n, Weights: ws, Inst: uint64(100 + r.Intn(3)), IdScheme: schemeFor(i)}
+		net := NewNet(c, opts, fmt.Sprintf("honest n=%d weights=%v ids=%d", n, ws, opts.IdScheme))
 		prof := SchedProfile{Drop: 30, Dup: 30, Timeout: 25, StaleTimeout: 200, Sync: 5, Byz: 0, CancelDuring: 10, CommitFail: 10, MaxSteps: 400, MaxHeight: 3, PendingSync: 8}
 		if i%3 == 1 {
 			prof.Timeout, prof.Drop = 120, 150
@@ -68,8 +68,13 @@ func suiteNode(c *Ctx) {
 	c.Class("scenario/two-locks")
 	scenarioEquivocationCommit(c)
 	c.Class("scenario/equivocation-commit")
-	scenarioPaddedPrepare(c)
+	scenarioPaddedPrepare(c, false)
+	scenarioPaddedPrepare(c, true)
 	c.Class("scenario/padded-prepare")
+	for sch := 0; sch < 3; sch++ {
+		scenarioOutsidersFirst(c, sch)
+	}
+	c.Class("scenario/outsiders-first")
 	scenarioForeignEmbeddedProposal(c)
 	c.Class("scenario/nv-foreign-embedded-proposal")
 	scenarioCommitWhileSyncPending(c)
@@ -123,8 +128,8 @@ func suiteNode(c *Ctx) {
 		if len(byz) == 0 {
 			continue
 		}
-		opts := NetOpts{N: n, Weights: ws, ByzIdx: byz, Inst: uint64(100 + r.Intn(3))}
-		net := NewNet(c, opts, fmt.Sprintf("byzantine n=%d weights=%v byz=%v", n, ws, byz))
+		opts := NetOpts{N: n, Weights: ws, ByzIdx: byz, Inst: uint64(100 + r.Intn(3)), IdScheme: schemeFor(i)}
+		net := NewNet(c, opts, fmt.Sprintf("byzantine n=%d weights=%v byz=%v ids=%d", n, ws, byz, opts.IdScheme))
 		prof := SchedProfile{Drop: 20, Dup: 20, Timeout: 40, StaleTimeout: 100, Sync: 3, Byz: 120, CancelDuring: 10, CommitFail: 5, MaxSteps: 500, MaxHeight: 2, PendingSync: 4}
 		if i%4 == 1 {
 			prof.Timeout = 150
@@ -138,6 +143,18 @@ func suiteNode(c *Ctx) {
 		}
 		c.Class(fmt.Sprintf("scenario/byzantine/n%d/b%d", n, len(byz)))
 	}
+}
+
+// schemeFor: every fifth scenario uses long ids with a common three-byte prefix, every seventh ids
+// that differ only after their twentieth byte (abbreviations and fixed-size keys must not be used as identities)
+func schemeFor(i int) int {
+	switch {
+	case i%5 == 3:
+		return 1
+	case i%7 == 5:
+		return 2
+	}
+	return 0
 }
 
 // laggard: one correct node receives nothing while the others decide two heights, then receives
@@ -396,7 +413,7 @@ func scenarioEquivocationCommit(c *Ctx) *Net {
 // field values, signature over exactly those bytes) completes the prepared quorum of two correct
 // members; they then time out and send their VIEW_CHANGE, with the proof extracted from their log,
 // to the correct leader of view 1.
-func scenarioPaddedPrepare(c *Ctx) *Net {
+func scenarioPaddedPrepare(c *Ctx, slack bool) *Net {
 	net := NewNet(c, NetOpts{N: 4, Weights: []uint64{1, 1, 1, 1}, ByzIdx: []int{3}, Inst: 100}, "padded-prepare n=4 byz=[3]")
 	net.start()
 	a := net.adv
@@ -420,9 +437,9 @@ func scenarioPaddedPrepare(c *Ctx) *Net {
 		c.Class("scenario/padded-prepare/not-reached")
 		return net
 	}
-	a.pad = true
+	a.pad, a.padSlack = true, slack
 	a.toAll(a.mkP(memberId(3), protocol.LEAN_HELIX_PREPARE, 100, 1, 0, hash), "byz-prepare-padded")
-	a.pad = false
+	a.pad, a.padSlack = false, false
 	net.pool = nil // COMMITs reach nobody
 	for _, n := range net.order {
 		net.timeout(n, false)
@@ -438,6 +455,50 @@ func scenarioPaddedPrepare(c *Ctx) *Net {
 	return net
 }
 
+
+// outsiders-first: before any honest PREPARE / COMMIT arrives, outsiders with valid keys (whose ids,
+// under id schemes 1 and 2, share a long prefix with the members' ids) send PREPARE and COMMIT for the
+// proposed hash to everybody; then all traffic is delivered.  Whatever the correct members commit must
+// carry a certificate their peers accept.
+func scenarioOutsidersFirst(c *Ctx, scheme int) *Net {
+	net := NewNet(c, NetOpts{N: 4, Weights: []uint64{1, 1, 1, 1}, ByzIdx: []int{3}, Inst: 100, IdScheme: scheme}, fmt.Sprintf("outsiders-first n=4 byz=[3] ids=%d", scheme))
+	net.start()
+	a := net.adv
+	var hash []byte
+	for _, f := range net.pool {
+		if pp, ok := interfaces.ToConsensusMessage(f.Raw).(*interfaces.PreprepareMessage); ok {
+			hash = pp.Content().SignedHeader().BlockHash()
+		}
+	}
+	if hash == nil {
+		c.Class("scenario/outsiders-first/not-reached")
+		return net
+	}
+	// deliver the proposal first, then the outsiders' messages, then everything else
+	var pps, others []*Flight
+	for _, f := range net.pool {
+		if _, ok := interfaces.ToConsensusMessage(f.Raw).(*interfaces.PreprepareMessage); ok {
+			pps = append(pps, f)
+		} else {
+			others = append(others, f)
+		}
+	}
+	net.pool = nil
+	for _, f := range pps {
+		net.deliverFlight(f)
+	}
+	for _, o := range a.outsiders {
+		a.toAll(a.mkP(o, protocol.LEAN_HELIX_PREPARE, 100, 1, 0, hash), "outsider-prepare")
+		a.toAll(a.mkC(o, protocol.LEAN_HELIX_COMMIT, 100, 1, 0, hash), "outsider-commit")
+	}
+	net.pool = append(others, net.pool...)
+	for guard := 0; guard < 3000 && len(net.pool) > 0; guard++ {
+		f := net.pool[0]
+		net.pool = net.pool[1:]
+		net.deliverFlight(f)
+	}
+	return net
+}
 
 // nv-foreign-embedded-proposal: the Byzantine leader of view 1 sends a NEW_VIEW that is by the book
 // except that the PREPREPARE embedded in it names another instance id (its signature covers exactly
